@@ -524,8 +524,10 @@ InfoSnap(sc, h0, h, ev) ==
 \* connect() call joined (data connections and asynchronous-request connections alike)
 Pair(a, b) == {a, b}
 FullId(s, e) == <<s, e>>
-ExpEdges(sc) == {Pair(FullId(Conn(sc, i).src, Conn(sc, i).se), FullId(Conn(sc, i).dst, Conn(sc, i).de)) : i \in CIdx(sc)}
-Neigh(sc, n) == {m \in UNION ExpEdges(sc) : Pair(n, m) \in ExpEdges(sc) /\ (m # n \/ {n} \in ExpEdges(sc))}
+\* ... plus one per relation that a simulator declared for its own entities in create() (rels: the harness's record of its replies)
+ExpEdges(sc, rels) == {Pair(FullId(Conn(sc, i).src, Conn(sc, i).se), FullId(Conn(sc, i).dst, Conn(sc, i).de)) : i \in CIdx(sc)}
+                      \cup {Pair(r[1], r[2]) : r \in rels}
+Neigh(sc, rels, n) == {m \in UNION ExpEdges(sc, rels) : Pair(n, m) \in ExpEdges(sc, rels)}
 RefInfo(sc, h, ev) ==
   IF ev.f = "get_progress" THEN
      \* ev.arg: the answer, converted back to the sum of the progress times (-1: not a whole number, -2: the request failed)
@@ -542,13 +544,13 @@ RefInfo(sc, h, ev) ==
      LET typeOf(n) == (CHOOSE c \in ev.created : <<c[1], c[2]>> = n)[3]
          known(n) == \E c \in ev.created : <<c[1], c[2]>> = n
          expNodes == {<<c[1], c[2], c[3]>> : c \in ev.created}
-         expRel == UNION {{<<q, m, typeOf(m)>> : m \in {m2 \in Neigh(sc, q) : known(m2)}} : q \in ev.q}
+         expRel == UNION {{<<q, m, typeOf(m)>> : m \in {m2 \in Neigh(sc, ev.rels, q) : known(m2)}} : q \in ev.q}
      IN [h |-> h,
          v |-> Cond(ev.res = "ok", "IR_get_related_entities_failed", <<ev.s, ev.shape, ev.res>>)
                \o (IF ev.res # "ok" THEN NoV
                    ELSE IF ev.shape = "all"
                      THEN Cond(ev.nodes = expNodes, "IR_entity_graph_nodes_are_not_the_created_entities", <<ev.s, ev.nodes, expNodes>>)
-                          \o Cond({Pair(e[1], e[2]) : e \in ev.edges} = ExpEdges(sc), "IR_entity_graph_edges_are_not_the_connected_pairs", <<ev.s, ev.edges, ExpEdges(sc)>>)
+                          \o Cond({Pair(e[1], e[2]) : e \in ev.edges} = ExpEdges(sc, ev.rels), "IR_entity_graph_edges_are_not_the_connected_pairs", <<ev.s, ev.edges, ExpEdges(sc, ev.rels)>>)
                      ELSE Cond(ev.rel = expRel, "IR_related_entities_are_not_the_connected_ones", <<ev.s, ev.q, ev.rel, expRel>>))]
 
 RefStep0(sc, h, ev) ==
